@@ -342,7 +342,7 @@ def ch_case(seed):
         sys.settrace(None)
         fn, line = c08_fuzz.hang_frame(e)
         out['crash'] = ('hang:%s:%s' % (fn, c08_fuzz._norm(line)),
-                        'does not return within %d s (spinning in %s: `%s`)' % (c08_fuzz.HANG_SECONDS, fn, line))
+                        'makes no progress during %d CPU-seconds (spinning in %s: `%s`)' % (c08_fuzz.HANG_SECONDS, fn, line))
         out['kind'] = 'hang'
         return out
     out['code'], out['cls'] = code, cls
@@ -368,7 +368,7 @@ def ch_case(seed):
         'crash:%s' % cls[1] if code >= 3000 else 'other'
     if code >= 3000:
         fn, line = c08_fuzz.innermost_tlslite_frame(exc)
-        out['crash'] = ('crash:%s:%s:%s' % (type(exc).__name__, fn, c08_fuzz._norm(line)),
+        out['crash'] = (c08_fuzz.crash_key(exc),
                         'raises %s: %s (in %s: `%s`)' % (type(exc).__name__, str(exc)[:100], fn, line))
     elif code == -1:
         out['tie'] = 'server neither left the region nor failed on a complete ClientHello (%s): %r' % (label, cls)
@@ -594,7 +594,7 @@ def sh_case(seed):
         sys.settrace(None)
         fn, line = c08_fuzz.hang_frame(e)
         out['crash'] = ('hang:%s:%s' % (fn, c08_fuzz._norm(line)),
-                        'client does not return within %d s (spinning in %s: `%s`)' % (c08_fuzz.HANG_SECONDS, fn, line))
+                        'client makes no progress during %d CPU-seconds (spinning in %s: `%s`)' % (c08_fuzz.HANG_SECONDS, fn, line))
         return out
     if r is None:
         out['tie'] = 'client did not reach _clientGetServerHello in the harness'
@@ -611,7 +611,7 @@ def sh_case(seed):
 
     def crash_info():
         fn, line = c08_fuzz.innermost_tlslite_frame(exc)
-        return ('crash:%s:%s:%s' % (type(exc).__name__, fn, c08_fuzz._norm(line)),
+        return (c08_fuzz.crash_key(exc),
                 'raises %s: %s (in %s: `%s`)' % (type(exc).__name__, str(exc)[:100], fn, line))
     if not cap.get('entered'):
         # the call failed before the region was entered (e.g. duplicated supported_versions at the HRR test)
@@ -833,7 +833,7 @@ def hrr_case(seed):
         'crash:%s' % cls[1] if code >= 3000 else 'other'
     if code >= 3000:
         fn, line = c08_fuzz.innermost_tlslite_frame(exc)
-        out['crash'] = ('crash:%s:%s:%s' % (type(exc).__name__, fn, c08_fuzz._norm(line)),
+        out['crash'] = (c08_fuzz.crash_key(exc),
                         'raises %s: %s (in %s: `%s`)' % (type(exc).__name__, str(exc)[:100], fn, line))
     elif code == -1:
         out['tie'] = 'server neither left the second-ClientHello checks nor failed (%s): %r' % (label, cls)
@@ -1026,7 +1026,7 @@ def hrrsh_case(seed):
         'crash:%s' % cls[1] if code >= 3000 else 'other'
     if code >= 3000:
         fn, line = c08_fuzz.innermost_tlslite_frame(exc)
-        out['crash'] = ('crash:%s:%s:%s' % (type(exc).__name__, fn, c08_fuzz._norm(line)),
+        out['crash'] = (c08_fuzz.crash_key(exc),
                         'raises %s: %s (in %s: `%s`)' % (type(exc).__name__, str(exc)[:100], fn, line))
     elif code == -1:
         out['tie'] = 'client neither left the HelloRetryRequest handling nor failed (%s): %r' % (cap['label'], cls)
